@@ -2,7 +2,7 @@
 
 The procedure text of the live ecb.b09 is executed by the BASIC09 reference interpreter:
 ecb_instr on all (start 1..6, subject over {A,B} of length <= 4, pattern of length <= 3),
-result variable pre-set to 0 and to 99; ecb_string on counts 0..255 x strings; the read
+result variable pre-set to 0 and to 99, plus subjects of 31..41 characters at string size 80; ecb_string on counts 0..255 x strings; the read
 filter on "" and on every numeric spelling the DATA path produces.  Expected values come
 from the Color BASIC model.  Where real BASIC09 behaviour is not certain (string slices
 reaching past the end) both plausible behaviours are run; a violation is reported only
@@ -29,13 +29,14 @@ def run_driver(body, decls, size=32, world=None):
 
 
 def instr_case(c):
-    start, subj, pat, preset = c
-    decls = "dim r: real\ndim s0, s1: string"
+    start, subj, pat, preset = c[:4]
+    size = c[4] if len(c) > 4 else 32
+    decls = "dim r: real\ndim s0, s1: string" + (f"[{size}]" if size != 32 else "")
     body = f"r := {preset}\ns0 := {q(subj)}\ns1 := {q(pat)}\nrun ecb_instr({float(start)}, s0, s1, r)"
     exp = D.Machine("10 REM").fn("INSTR", [("num", float(start)), ("str", subj), ("str", pat)])
     outs = []
     for w in WORLDS:
-        r = run_driver(body, decls, world=w)
+        r = run_driver(body, decls, size=size, world=w)
         if r["status"] == "ok":
             outs.append(("value", r["env"].get("r")))
         else:
@@ -121,6 +122,12 @@ def gen(run):
     patterns = ["".join(p) for n in range(0, 4) for p in itertools.product(alpha, repeat=n)]
     for d in core.cube(run, [("start", range(1, 7 if quick else 9)), ("subj", subjects), ("pat", patterns), ("preset", [0, 99])]):
         cases.append(("instr", (d["start"], d["subj"], d["pat"], d["preset"])))
+    # subjects longer than BASIC09's default 32 bytes (requested string size 80): one B at every column 28..41 of a run of A's
+    for d in core.cube(run, [("len", [31, 32, 33, 34, 40, 41]), ("col", range(28, 42)), ("pat", ["B", "AB", "BA", "ABA", "BB"]), ("start", [1, 2, 31, 32, 33, 34, 36])]):
+        if d["col"] > d["len"]:
+            continue
+        subj = "A" * (d["col"] - 1) + "B" + "A" * (d["len"] - d["col"])
+        cases.append(("instr", (d["start"], subj, d["pat"], 99, 80)))
     for d in core.cube(run, [("count", range(0, 256)), ("s", ["A", "AB", "BA", ""]), ("size", [255])]):
         cases.append(("string", (d["count"], d["s"], d["size"])))
     for d in core.cube(run, [("count", [0, 1, 2, 31, 32]), ("s", ["A", "XY"]), ("size", [32, 80])]):
